@@ -74,11 +74,11 @@ func (r *recBase) Verify(sig hotstuff.QuorumSignature, m []byte) error {
 
 // Gate holds the parked asynchronous verifications of one node.
 type Gate struct {
-	Main    uint64
-	mu      sync.Mutex
-	Pending []chan struct{}
-	Results []string // outcome of every gated verification, in completion order (diagnostics)
-	Completed int    // number of gated verifications whose signature check has returned
+	Main      uint64
+	mu        sync.Mutex
+	Pending   []chan struct{}
+	Results   []string // outcome of every gated verification, in completion order (diagnostics)
+	Completed int      // number of gated verifications whose signature check has returned
 }
 
 // ReleaseAndWait lets the i-th parked verification run and waits until its goroutine has finished.
@@ -178,7 +178,9 @@ func (s *capSender) RequestBlock(_ context.Context, h hotstuff.Hash) (*hotstuff.
 	}
 	return s.node.Fetch(s.node.ID, h)
 }
-func (s *capSender) Sub(ids []hotstuff.ID) (core.Sender, error) { return &subSender{capSender: s, ids: ids}, nil }
+func (s *capSender) Sub(ids []hotstuff.ID) (core.Sender, error) {
+	return &subSender{capSender: s, ids: ids}, nil
+}
 
 // ContribOut is a partial aggregate handed to core.KauriSender.SendContributionToParent.
 type ContribOut struct {
@@ -255,7 +257,7 @@ type NodeOpts struct {
 	Opts      []core.RuntimeOption
 	Keys      []hotstuff.PrivateKey
 	QueueSize uint
-	Async     bool // asynchronous vote verification, gated by the scheduler
+	Async     bool                            // asynchronous vote verification, gated by the scheduler
 	Kauri     func(id hotstuff.ID) *tree.Tree // when set, Kauri replaces the clique communication
 }
 
